@@ -5,6 +5,7 @@ import (
 	"fmt"
 	"math/rand"
 	"net/url"
+	"strings"
 
 	"github.com/bitcoin-sv/block-headers-service/verifharness/ev"
 	"github.com/bitcoin-sv/block-headers-service/verifharness/gen"
@@ -160,10 +161,48 @@ func (e *env) keys(rng *rand.Rand, n int) {
 		}
 		e.r.Count("keys_unknown_404", 1)
 	}
+	// near misses of stored roots: the key is compared as the string the listing itself hands out
+	stored := map[string]bool{}
+	for _, nd := range nodes {
+		stored[nd.Merkle.String()] = true
+	}
+	try := func(class, k string) bool {
+		if stored[k] {
+			return true
+		}
+		code, _, msg := e.fetch(rng.Intn(6), k)
+		if code != 404 {
+			e.violate("key|near-miss:"+class+"|status", fmt.Sprintf("start key %q (%s of a stored merkle root) -> %d %s, expected 404", k, class, code, msg), map[string]any{"start_key": k})
+			return false
+		}
+		e.r.Count("keys_near_miss_404", 1)
+		return true
+	}
+	tried0 := false
+	for k := 0; k < len(nodes) && !e.failed; k++ {
+		root := nodes[k].Merkle.String()
+		if k < 3 {
+			rev := []byte(root)
+			for i, j := 0, len(rev)-2; i < j; i, j = i+2, j-2 {
+				rev[i], rev[i+1], rev[j], rev[j+1] = rev[j], rev[j+1], rev[i], rev[i+1]
+			}
+			for _, c := range [][2]string{{"upper-case", strings.ToUpper(root)}, {"last-digit-cut", root[:63]}, {"digit-appended", root + "0"}, {"0x-prefixed", "0x" + root}, {"byte-reversed", string(rev)}} {
+				if !try(c[0], c[1]) {
+					return
+				}
+			}
+		}
+		if !tried0 && root[0] == '0' {
+			tried0 = true
+			if !try("leading-zeros-cut", strings.TrimLeft(root, "0")) {
+				return
+			}
+		}
+	}
 }
 
 func body(r *ev.Run) {
-	r.Rule("stores = seeded random histories (pairwise distinct merkle roots; forks at many heights, stale siblings at listed heights, orphans, reorganisations); per store: a complete walk for EVERY batch size 1..n+2 (n = longest-chain length), batchSize 0 (must answer 200 or 4xx), every stored merkle root as starting key (longest: the rest of the chain; stale/orphan: 409), unknown keys (404), and walks interleaved with ingestion of 1-3 new tip headers between pages. evaluations = complete walks; distinct = (store index, batch size) walks; non-trivial = store has a stale or orphan header.")
+	r.Rule("stores = seeded random histories (pairwise distinct merkle roots; forks at many heights, stale siblings at listed heights, orphans, reorganisations); per store: a complete walk for EVERY batch size 1..n+2 (n = longest-chain length), batchSize 0 (must answer 200 or 4xx), every stored merkle root as starting key (longest: the rest of the chain; stale/orphan: 409), unknown keys and near misses of stored roots - upper case, a digit cut or appended, leading zeros cut, 0x-prefixed, byte-reversed - (404), and walks interleaved with ingestion of 1-3 new tip headers between pages. evaluations = complete walks; distinct = (store index, batch size) walks; non-trivial = store has a stale or orphan header.")
 	r.Assume("merkle roots pairwise distinct (as the statement requires)", "interleaved ingestion only extends the tip", "SQLite only")
 	r.Require("complete_walks", 300)
 	r.Require("keys_non_longest_409", 20)
